@@ -25,6 +25,9 @@ THEOREMS = [
     "Mpc.C12_cmp_sign_from_size_witness",
     "Mpc.C12_fold_neg",
     "Mpc.C12_fold_bool_ops",
+    "Mpc.C12_text_wrap_nonneg",
+    "Mpc.C12_text_div_mod_nonneg",
+    "Mpc.Fold.typedConst_pos",
     "Mpc.C12_operand_cast_witness",
     "Mpc.C12_result_type_widened_witness",
     "Mpc.C12_result_minbits_witness",
